@@ -222,7 +222,7 @@ func c05Ownership(r *an.Run) {
 			if short(f) == "(internal/engine.SearchReplacer).Replace" || short(f) == "internal/data.Lookup" {
 				continue
 			}
-			if _, holder, il := matchLoop(r); holder == f && il != nil && il.Loop.Blocks[s.Block()] {
+			if site := findSlotSite(r); site != nil && site.fn == f && site.region[s.Block()] {
 				continue // the guarded slot assignment of the match loop (C03-R6)
 			}
 			r.Check(fresh, short(f)+"|reflect-write", s.Pos(), "%s assigns by reflection only into a value it allocated in this call (reflect.New / MakeSlice), never into a node of the target file%s", short(f), ifNonEmpty(foreign, " — the destination may be "+foreign))
@@ -377,6 +377,10 @@ func c05NoStaleSlot(r *an.Run) {
 		return
 	}
 	sets := an.CallsTo(f, rvSet)
+	if site := findSlotSite(r); site != nil && site.loopFn == f && site.perMatchCall != nil {
+		// the per-match step lives in a helper called from Replace's own loop: that call is the slot event
+		sets = []ssa.CallInstruction{site.perMatchCall}
+	}
 	if _, holder, _ := matchLoop(r); holder != nil && holder != f {
 		// the node stage lives in a helper: the slot events of Replace are its calls to that helper
 		sets = nil
